@@ -477,15 +477,15 @@ Section Infer.
              end
            end
     end.
-  (* ColEnum.Infer; [old]: the maps are never cleared *)
-  Definition enum_infer (old : list (bytes * Z)) (t : bytes) : res col :=
+  (* ColEnum.Infer: the base is validated first, then parse builds a fresh mapping *)
+  Definition enum_infer (t : bytes) : res col :=
     bs <~ base_r t ;;
     if negb (has_prefix (s2b "Enum") bs) then Err EInvalid else
+    if negb (bytes_eqb bs T_Enum8 || bytes_eqb bs T_Enum16) then Err EInvalid else
     e <~ elem_r t ;;
     match enum_parse (split_byte 44 e) with
     | None => Err EInvalid
-    | Some ds =>
-      if bytes_eqb bs T_Enum8 || bytes_eqb bs T_Enum16 then rok (CEnum t bs (old ++ ds)) else Err EInvalid
+    | Some ds => rok (CEnum t bs ds)
     end.
 
   Definition of_ctor (o : option bytes) : option (res col) :=
@@ -528,7 +528,7 @@ Section Infer.
       else if bytes_eqb bs T_Decimal64 then rok (CGen (s2b "ColDecimal64"))
       else if bytes_eqb bs T_Decimal128 then rok (CGen (s2b "ColDecimal128"))
       else if bytes_eqb bs T_Decimal256 then rok (CGen (s2b "ColDecimal256"))
-      else if bytes_eqb bs T_Enum8 || bytes_eqb bs T_Enum16 then enum_infer [] t
+      else if bytes_eqb bs T_Enum8 || bytes_eqb bs T_Enum16 then enum_infer t
       else if bytes_eqb bs T_DateTime64 then datetime64_infer None t
       else Err EUnsupported
     end
@@ -575,7 +575,7 @@ Section Infer.
       rok (CMap k' v')
     | CDateTime _ => datetime_infer t
     | CDateTime64 _ old => datetime64_infer old t
-    | CEnum _ _ old => enum_infer old t
+    | CEnum _ _ _ => enum_infer t
     | CInterval _ => interval_infer t
     | _ => rok c
     end.
